@@ -290,4 +290,37 @@ example : (mqttSend "out".toList true false (some "1;2;1;0;2;a;b\n".toList)).1 =
     (mqttSend "out".toList true false none).1 = .skipped ∧
     (mqttSend "out".toList true true (some [])).1 = .skipped := by decide
 
+/-- a fresh MQTT gateway meets the hypotheses of `subscriptions_cover` … -/
+def freshMqtt : GW := { const := .v22, kind := .mqtt }
+
+example : freshMqtt.kind = .mqtt ∧ WellKeyed freshMqtt ∧
+    (freshMqtt.persist = true ∨ freshMqtt.sensors = []) :=
+  ⟨rfl, by intro k nd h; simp [freshMqtt] at h, Or.inr rfl⟩
+
+/-- … and with a subscribe callback that ALWAYS raises, presenting node 1 and then its child 3
+    leaves exactly the two fixed topics and the three topics of the child subscribed -/
+example : (runSubs "p".toList (fun _ => true) freshMqtt (startSubs "p".toList (fun _ => true) freshMqtt).1
+      [.line "1;255;0;0;17;2.2\n".toList, .line "1;3;0;0;6;\n".toList]).2.map (·.1)
+    = ["p/+/+/0/+/+".toList, "p/+/+/3/+/+".toList, "p/1/3/1/+/+".toList, "p/1/3/2/+/+".toList,
+       "p/1/+/4/+/+".toList] := by decide +kernel
+
+/-- a restored tree (persistence on, node 7 with child 2) is well keyed, and `init_topics`
+    under the nested prefix `a/b` subscribes its topics after the two fixed ones, all with QoS 0 -/
+def restoredMqtt : GW :=
+  { const := .v20, kind := .mqtt, persist := true, sensors := [(7, { id := 7, children := [(2, ⟨2, 3, [], []⟩)] })] }
+
+example : WellKeyed restoredMqtt := by
+  intro k nd h
+  simp [restoredMqtt] at h
+  obtain ⟨rfl, rfl⟩ := h
+  refine ⟨rfl, ?_⟩
+  intro c ch hc
+  simp at hc
+  obtain ⟨rfl, rfl⟩ := hc
+  rfl
+
+example : (startSubs "a/b".toList (fun _ => false) restoredMqtt).1
+    = [("a/b/+/+/0/+/+".toList, 0), ("a/b/+/+/3/+/+".toList, 0), ("a/b/7/2/1/+/+".toList, 0),
+       ("a/b/7/2/2/+/+".toList, 0), ("a/b/7/+/4/+/+".toList, 0)] := by decide +kernel
+
 end MySensors.C17
